@@ -263,8 +263,22 @@ StylesheetRoot::process(
 
     // Output the action of the found root rule.  All processing
     // occurs from here.
-    
-    rootRule->execute(executionContext);
+    {
+        // The initial current node list consists of just the root
+        // node, so position() and last() are 1 in the template that
+        // is instantiated for it.
+        typedef StylesheetExecutionContext::BorrowReturnMutableNodeRefList  BorrowReturnMutableNodeRefList;
+
+        BorrowReturnMutableNodeRefList  theRootNodeList(executionContext);
+
+        theRootNodeList->addNode(sourceTree);
+
+        const XPathExecutionContext::ContextNodeListPushAndPop  theContextNodeListPushAndPop(
+                executionContext,
+                *theRootNodeList);
+
+        rootRule->execute(executionContext);
+    }
 
     // At this point, anything transient during the tranformation
     // may have been deleted, so we may not refer to anything the
